@@ -870,3 +870,21 @@ def stream_stale_slot(rng):
     stmts.append(["obj", _T("B", "bb", False, [("f1", ["int", 2])], count=rng.choice([None, ["int", 2]]))])
     return {"version": 3, "options": [], "stmts": stmts}, \
         ["stale_slot", "count_formula", "forward_ref", "nick"] + (["just_once", "hidden_field"] if keeper == "once_hidden" else ["var_top"])
+
+
+def stream_once_cluster_randref(rng):
+    """just_once rows of several tables with and without nicknames (their ids coincide across tables:
+    ids are per table), picked by random_reference by table name / nickname in later iterations and
+    continued runs, and READ through the picked reference (field lookup loads the row from the history).
+    Before /repo fix 0aad1fc a continued run re-saved such rows skipping every bare id already seen."""
+    r, feats = stream_once_cluster(rng)
+    onces = [s[1] for s in r["stmts"] if s[0] == "obj" and s[1]["once"]]
+    fields = []
+    for q, t in enumerate(rng.sample(onces, k=min(len(onces), rng.randint(1, 2)))):
+        nm = t["nick"] if (t["nick"] and rng.random() < 0.4) else t["table"]
+        fields.append(("p%d" % q, ["randref", nm]))
+        fields.append(("q%d" % q, _F(["e", ["attr", ["var", "p%d" % q], rng.choice(["f0", "f1", "id"])]])))
+    r["stmts"].append(["obj", _T("E", None, False, fields, count=rng.choice([None, ["int", 2]]))])
+    r["raw"] = [rng.randint(0, 10 ** 6) for _ in range(60)]
+    r["bias"] = rng.choice(["lo", "hi", "mix", "mix"])
+    return r, feats + ["random_reference", "randref_field_lookup"]
